@@ -101,6 +101,7 @@ func profileFor(prop, tier string) profile {
 		base.onClose = []int{1}
 		base.lateClient = true
 		base.faults, base.faultBudget = []string{"accept"}, 2
+		base.startTLSPct, base.tlsPct = 15, 10 // the ID must survive a StartTLS upgrade
 	case "C10":
 		base.maxConns, base.maxReqs, base.unbindPct = 3, pick(8, 20), 100
 		base.endings = []string{"", "", "close"}
